@@ -1351,6 +1351,12 @@ func (ss *ServerSession) handleRequestInner(sc *ServerConn, req *base.Request) (
 			ss.timeDecoder = &rtptime.GlobalDecoder{}
 			ss.timeDecoder.Initialize()
 
+			// start the timeout check before starting medias,
+			// otherwise a session whose medias fail to start is never closed
+			if ss.setuppedTransport.Protocol == ProtocolUDP {
+				ss.udpCheckStreamTimer = time.NewTimer(ss.s.checkStreamPeriod)
+			}
+
 			for _, sm := range ss.setuppedMedias {
 				err = sm.start()
 				if err != nil {
@@ -1367,7 +1373,6 @@ func (ss *ServerSession) handleRequestInner(sc *ServerConn, req *base.Request) (
 
 			switch ss.setuppedTransport.Protocol {
 			case ProtocolUDP:
-				ss.udpCheckStreamTimer = time.NewTimer(ss.s.checkStreamPeriod)
 				ss.startWriter()
 
 			default: // TCP
